@@ -269,31 +269,43 @@ def strategies():
         return Item(term, stream, chunk, flags)
 
     def rooms_value(draw, h, w):
-        """random partition of the h x w board into orthogonally connected rooms, rooms and
-        cells in random order; returns (rooms python value with tuples, flags)"""
-        rid = [[-1] * w for _ in range(h)]
-        nrooms = 0
-        p_new = draw(st.sampled_from([1, 2, 4]))
-        for y in range(h):
-            for x in range(w):
-                opts = []
-                if x > 0:
-                    opts.append(rid[y][x - 1])
-                if y > 0:
-                    opts.append(rid[y - 1][x])
-                c = draw(st.integers(0, p_new + len(opts) - 1)) if opts else 0
-                if not opts or c >= len(opts):
-                    if not opts or c - len(opts) == 0:
-                        rid[y][x] = nrooms
-                        nrooms += 1
-                    else:
-                        rid[y][x] = opts[0]
-                else:
-                    rid[y][x] = opts[c]
-        rooms = [[] for _ in range(nrooms)]
-        for y in range(h):
-            for x in range(w):
-                rooms[rid[y][x]].append((y, x))
+        """random partition of the h x w board into orthogonally connected rooms (a random spanning
+        tree with some of its edges removed, so that every connected partition is reachable, U- and
+        J-shaped rooms included), rooms and cells in random order; returns (rooms, shuffled)"""
+        cells = [(y, x) for y in range(h) for x in range(w)]
+        edges = []
+        for (y, x) in cells:
+            if x + 1 < w:
+                edges.append(((y, x), (y, x + 1)))
+            if y + 1 < h:
+                edges.append(((y, x), (y + 1, x)))
+        parent = {c: c for c in cells}
+
+        def find(c):
+            while parent[c] != c:
+                parent[c] = parent[parent[c]]
+                c = parent[c]
+            return c
+
+        tree = []
+        if edges:
+            for i in draw(st.permutations(list(range(len(edges))))):
+                a, b = edges[i]
+                ra, rb = find(a), find(b)
+                if ra != rb:
+                    parent[ra] = rb
+                    tree.append((a, b))
+        n_cut = draw(st.integers(0, len(tree))) if tree else 0
+        if tree and draw(st.booleans()):
+            n_cut = min(n_cut, 3)
+        keep = tree[n_cut:]
+        parent = {c: c for c in cells}
+        for a, b in keep:
+            parent[find(a)] = find(b)
+        groups = {}
+        for c in cells:
+            groups.setdefault(find(c), []).append(c)
+        rooms = list(groups.values())
         shuffled = draw(st.booleans())
         if shuffled:
             rooms = [list(draw(st.permutations(r))) for r in rooms]
